@@ -17,7 +17,9 @@
 (*    crs   : set of revisions whose record this operation created,         *)
 (*    flt   : classes of faults injected into it ("res","wait","store"),    *)
 (*    posted: manifest resources it created (POST ok),                      *)
-(*    log   : sequence of the labels of its calls]                          *)
+(*    log   : sequence of the labels of its calls,                          *)
+(*    fsub  : a cluster fault was injected after the atomic sub-operation   *)
+(*            (uninstall inside install, rollback inside upgrade) began]    *)
 (***************************************************************************)
 EXTENDS HelmBase
 
@@ -139,7 +141,8 @@ C03_Cleanup(pre, post, s) ==
     \A r \in s.posted : IsAbsent(post.cluster[r])
 
 C03_AtomicUpgrade(pre, post, s) ==
-  (s.u.kind = "upgrade" /\ s.u.atomic /\ ~s.u.dry /\ ClusterFault(s) /\ ~s.ok /\ s.crs # {}) =>
+  \* (a fault that hits the rollback itself is outside the statement: the cluster must accept the recovery)
+  (s.u.kind = "upgrade" /\ s.u.atomic /\ ~s.u.dry /\ ClusterFault(s) /\ ~s.fsub /\ ~s.ok /\ s.crs # {}) =>
     LET good == {r \in Revs(pre.store) : pre.store[r].st \in {"deployed", "superseded"}}
         top  == MaxOr0(Revs(post.store)) IN
     good # {} =>
@@ -150,7 +153,7 @@ C03_AtomicUpgrade(pre, post, s) ==
       /\ C01_AtMostOneDeployed(post.store)
 
 C03_AtomicInstall(pre, post, s) ==
-  (s.u.kind = "install" /\ s.u.atomic /\ ~s.u.dry /\ ClusterFault(s) /\ ~s.ok /\ s.crs # {}) =>
+  (s.u.kind = "install" /\ s.u.atomic /\ ~s.u.dry /\ ClusterFault(s) /\ ~s.fsub /\ ~s.ok /\ s.crs # {}) =>
     /\ Revs(post.store) = {}
     /\ \A r \in DOMAIN ChartMan(s.u.chart) : IsAbsent(post.cluster[r])
 
